@@ -12,7 +12,7 @@ import sys
 import time
 import traceback
 
-VERIF = "/verif"
+VERIF = os.environ.get("VERIF_ROOT") or os.path.dirname(os.path.dirname(os.path.abspath(__file__)))
 REPO = "/repo"
 KNOWN = os.path.join(VERIF, "known_findings.json")
 
